@@ -251,6 +251,12 @@ Inductive op :=
 | AddRespCb (e : eaddr) (f ctr cb : N)               (* FeatureLocal.AddResponseCallback *)
 | AddResultCb (e : eaddr) (f cb : N)                 (* FeatureLocal.AddResultCallback *)
 | QFactory (t : N)                                   (* which of the harness' functions CreateFunctionData(t) registers *)
+| ParRegister (e : eaddr) (f ctr cb k : N)
+     (* the same callback registered for the same counter on the same feature from k goroutines released
+        together.  AddResponseCallback (duplicate scan + append) is one critical section under
+        FeatureLocal.muxResponseCB, so the k calls happen in some order, and since they are identical every
+        order is the same sequence: the first is accepted unless the callback is already pending, all others
+        are refused.  Observed: the multiset of the k outcomes. *)
 | SeqArrive (l : list (N * dgram))
      (* arrivals back to back: the datagrams are delivered one after the other WITHOUT waiting for the
         callbacks they start (the callbacks run in goroutines; the harness lets a slow callback block until
@@ -804,6 +810,15 @@ Fixpoint run_evs (v : variant) (s : st) (d : dgram) (l : list ev) : st * list ob
 Definition par_events (ps : list N) (late : option N) (pf : N) : list ev :=
   map EArr ps ++ match late with Some cb => [EReg cb] | None => [] end ++ [EArr pf].
 
+Fixpoint run_regs (s : st) (e : eaddr) (f ctr cb : N) (n : nat) : st * list obs :=
+  match n with
+  | O => (s, [])
+  | S n' =>
+      let '(s1, o1) := add_resp_cb s e f ctr cb in
+      let '(s2, o2) := run_regs s1 e f ctr cb n' in
+      (s2, o1 ++ o2)
+  end.
+
 Fixpoint run_seq (v : variant) (s : st) (l : list (N * dgram)) : st * list obs :=
   match l with
   | [] => (s, [])
@@ -899,6 +914,7 @@ Definition step_v (v : variant) (s : st) (o : op) : st * list obs :=
       end
   | QFactory t =>
       (s, map ORetN (filter (fn_registered t) all_fns) ++ (if N.eqb t T_GENERIC then [] else [ORetN 1000]))
+  | ParRegister e f ctr cb k => run_regs s e f ctr cb (N.to_nat k)
   | SeqArrive l =>
       let '(s1, out) := run_seq v s l in (s1, seq_obs out)
   | ParArrive ps d late pf =>
